@@ -82,7 +82,7 @@ def stencil_hess(seed, k, eps, zmask, container='list'):
             'one_sided': one, 'maxerr': float(err.max())}
 
 
-def stencil_grad(seed, k, eps, zmask, container='list'):
+def stencil_grad(seed, k, eps, zmask, container='list', two_pt=False):
     """get_grad: exact for quadratics where the central difference is used, exact for linear functions under
     one-sided differences.  A function quadratic in the centrally-differenced coordinates and linear in the
     one-sided ones is differentiated exactly by both."""
@@ -95,7 +95,14 @@ def stencil_grad(seed, k, eps, zmask, container='list'):
             A[j, j] = 0.0          # linear along one-sided coordinates (cross terms stay: they are linear in p_j)
     f = lambda p: float(0.5 * np.dot(p, np.dot(A, p)) + np.dot(b, p) + c)
     arg = _contain(p0, container)
-    g = Godambe.get_grad(f, arg, eps)
+    prev = Godambe.two_pt_deriv_test
+    if two_pt:
+        # module switch: one-sided components use the three-point formula (exact for quadratics as well)
+        Godambe.two_pt_deriv_test = True
+    try:
+        g = Godambe.get_grad(f, arg, eps)
+    finally:
+        Godambe.two_pt_deriv_test = prev
     want = np.dot(A, p0) + b
     span = np.abs(np.array(p0)) + 2 * np.abs(h)
     fmax = 0.5 * np.dot(span, np.dot(np.abs(A), span)) + np.dot(np.abs(b), span) + abs(c)
@@ -387,7 +394,11 @@ def chi2(xs, weights, as_array):
     """sum_chi2_ppf: scalar in -> scalar out, array in -> array out, equals the mixture tail probability"""
     import scipy.stats
     from dadi import Godambe
-    x_in = np.array(xs, dtype=float) if as_array == 'array' else (list(xs) if as_array == 'list' else float(xs[0]))
+    if as_array in ('int', 'intlist', 'intarray'):
+        xs = [float(int(abs(v)) + 1) for v in xs]
+        x_in = int(xs[0]) if as_array == 'int' else ([int(v) for v in xs] if as_array == 'intlist' else np.array([int(v) for v in xs]))
+    else:
+        x_in = np.array(xs, dtype=float) if as_array == 'array' else (list(xs) if as_array == 'list' else float(xs[0]))
     try:
         got = Godambe.sum_chi2_ppf(x_in, weights=tuple(weights))
     except Exception as e:
@@ -396,7 +407,7 @@ def chi2(xs, weights, as_array):
         return {'ok': False, 'what': 'sum_chi2_ppf raised %s: %s' % (type(e).__name__, e), 'x': xs, 'as': as_array}
     if abs(sum(weights) - 1) > 1e-6:
         return {'ok': False, 'what': 'sum_chi2_ppf accepted weights summing to %r' % (sum(weights),)}
-    xa = np.atleast_1d(np.array(xs if as_array != 'scalar' else xs[:1], dtype=float))
+    xa = np.atleast_1d(np.array(xs if as_array not in ('scalar', 'int') else xs[:1], dtype=float))
     want = np.zeros_like(xa)
     for d, w in enumerate(weights):
         if d == 0:
@@ -404,7 +415,7 @@ def chi2(xs, weights, as_array):
         else:
             want += w * scipy.stats.chi2.sf(xa, d)
     # dadi's convention at x == 0 (tail probability 1 there) is accepted either way: only x > 0 are drawn
-    if as_array == 'scalar':
+    if as_array in ('scalar', 'int'):
         ok = np.ndim(got) == 0 and abs(float(got) - want[0]) <= 1e-12 + 1e-10 * abs(want[0])
     else:
         ok = np.shape(got) == xa.shape and bool(np.allclose(got, want, rtol=1e-10, atol=1e-12))
